@@ -237,7 +237,6 @@ func c06Round(t *testing.T, rng *rand.Rand, queries bool) (viol []string, stats 
 	return
 }
 
-
 // c06Restart: the node runs with a snapshot, processes a history of own and incoming user
 // events and queries - among them the queries serf handles internally (_serf_ping,
 // _serf_conflict, key requests), which share the query clock - is shut down cleanly and
